@@ -218,3 +218,23 @@ Definition w_oblock : node :=
 (* '$THETA 4 ; KA' *)
 Definition w_single : node :=
   (Tree 1%positive [(Tok 14%positive [32]%N); (Tree 2%positive [(Tree 3%positive [(Tok 10%positive [52]%N)])]); (Tok 14%positive [32]%N); (Tok 15%positive [59; 32; 75; 65]%N); (Tok 16%positive [10]%N)]).
+
+(* ================================================================ update_thetas, order of the records *)
+(* '$THETA 4 ; KA' with new parameters [X = 5 (new); KA = 2 (changed)]: X is inserted IN FRONT of a changed
+   theta.  The loop appends a created record at once but the record under construction only when it is
+   complete, so the code lists KA first: ' 2.0 ; KA' / '  5.0 ; X' re-reads as [KA; X] although the model has
+   [X; KA] - every action is inside its guard, only g_order fails (finding C04-THETA-INSERT-ORDER). *)
+Definition w_ka : node :=
+  (Tree 1%positive [(Tok 14%positive [32]%N); (Tree 2%positive [(Tree 3%positive [(Tok 10%positive [52]%N)])]); (Tok 14%positive [32]%N); (Tok 15%positive [59; 32; 75; 65]%N); (Tok 16%positive [10]%N)]).
+Theorem theta_refuted_insert_order :
+  exists recs old new acts roots nKA nX,
+    new = [(nX, P 50 MInf PInf false); (nKA, P 20 MInf PInf false)]
+    /\ ut_plan Z demo recs old new = Ok acts
+    /\ forallb (g_action Z demo) acts = true /\ g_order Z demo acts new = false
+    /\ guard_plan Z demo recs old new = false
+    /\ update_thetas Z demo recs old new = Ok roots
+    /\ reread Z demo [] roots = Ok [(nKA, P 20 MInf PInf false); (nX, P 50 MInf PInf false)].
+Proof.
+  exists [w_ka], [(T [75; 65]%nat, P 40 MInf PInf false)]. eexists. eexists. eexists. exists (T [75; 65]%nat), (T [88]%nat).
+  repeat split; vm_compute; reflexivity.
+Qed.
